@@ -148,7 +148,7 @@ def r10_4(ck: Check) -> None:
     q = CRP + "handle_inventory_message_received"
     s = ck.summ(q, 0)
     sp = Spec(s, ("self", "header", "message"))
-    require_guard(ck, "R10.4", s, sp, "len(message.items) > %d" % INV, "an inventory of more than 500 items is refused")
+    require_guard(ck, "R10.4", s, sp, "len(message.items) > %d" % INV, "an inventory of more than 500 items is refused", exact=True)
     empty = sp.term("message.items == []")
     st = {show(e.term): e for e in s.events if e.kind == "store"}
     w = st.get("self.waiting_for_inventory")
